@@ -573,8 +573,10 @@ func (o *Outcome) Digest() string {
 			return fmt.Sprintf("GenerateKey(nil): %s intact=%v", o.Ok, o.Intact)
 		}
 	}
-	return fmt.Sprintf("panic=%q budget=%v b=%s b2=%s ok=%s valid=%s err=%q dev{%s} fb=%v intact=%v",
-		o.Panic, o.Budget, o.B, o.B2, o.Ok, o.Valid, o.Err, dev, o.Fallbacks, o.Intact)
+	// (which chunks took the fallback is an internal path, not a result: a
+	// correct memoising implementation may legitimately differ there)
+	return fmt.Sprintf("panic=%q budget=%v b=%s b2=%s ok=%s valid=%s err=%q dev{%s} intact=%v",
+		o.Panic, o.Budget, o.B, o.B2, o.Ok, o.Valid, o.Err, dev, o.Intact)
 }
 
 // ---------------------------------------------------------------- fallback hook
